@@ -37,6 +37,11 @@ def composite_histories():
     H["branch-join-in-child"] = [("add", 0, [A, "y<=K2"]), ("branch", 0, 1), ("add", 1, ["x==y"]), ("eval", 1, "x", 9, []), ("eval", 0, "x", 9, []), ("max", 0, "y", False, [])]
     H["solution-spanning"] = [("add", 0, [A, "y==K1"]), ("solution", 0, "x+y", 2, []), ("solution", 0, "x", 1, []), ("sat", 0, [])]
     H["minmax-signed"] = [("add", 0, [A, "y<=K2"]), ("min", 0, "x", True, []), ("max", 0, "x", True, []), ("min", 0, "x", False, []), ("max", 0, "y", True, ["y!=K1"])]
+    # a query spanning two children (or an unconstrained variable) leaves a combined / blank solver in the per-names cache, which a branch
+    # shares; one side then links exactly those names and the other side repeats the query
+    H["cross-query-branch-link-parent"] = [("add", 0, [A, "y<=K2"]), ("eval", 0, "x+y", 2, []), ("branch", 0, 1), ("add", 0, ["x+y==K0"]), ("eval", 1, "x+y", 9, []), ("sat", 1, ["x==y"]), ("eval", 0, "x+y", 9, [])]
+    H["cross-query-branch-link-child"] = [("add", 0, [A, "y<=K2"]), ("max", 0, "x+y", False, []), ("branch", 0, 1), ("add", 1, ["x==y"]), ("eval", 0, "x+y", 9, []), ("eval", 1, "x+y", 9, []), ("eval", 0, "x", 9, [])]
+    H["fresh-var-query-branch-link"] = [("add", 0, [A]), ("eval", 0, "z", 2, []), ("branch", 0, 1), ("add", 0, ["z==K2"]), ("eval", 1, "z", 9, []), ("add", 1, ["z<=K0"]), ("eval", 0, "z", 9, []), ("eval", 1, "z", 9, [])]
     return H
 
 
@@ -70,6 +75,11 @@ def branch_histories():
     H["parent-simplify"] = [("add", 0, [A, U]), ("branch", 0, 1), ("simplify", 0), ("add", 0, ["x!=K2"]), ("eval", 1, "x", 9, []), ("eval", 0, "x", 9, [])]
     H["two-vars"] = [("add", 0, [A, "y<=K2"]), ("branch", 0, 1), ("add", 1, ["x==y"]), ("add", 0, ["y!=K1"]), ("eval", 1, "x", 9, []), ("eval", 0, "y", 9, []), ("eval", 1, "y", 9, [])]
     H["solution-leak"] = [("add", 0, [A]), ("branch", 0, 1), ("solution", 1, "x", 1, []), ("add", 1, ["x!=K1"]), ("solution", 0, "x", 1, []), ("solution", 1, "x", 1, [])]
+    # constraints added after the last query are still pending (not yet in the native solver) when the branch is taken
+    H["branch-with-pending-add"] = [("add", 0, [A]), ("eval", 0, "x", 2, []), ("add", 0, [U]), ("branch", 0, 1), ("sat", 1, []), ("eval", 1, "x", 9, []), ("min", 1, "x", False, []), ("eval", 0, "x", 9, [])]
+    H["branch-with-pending-unsat"] = [("add", 0, [A]), ("sat", 0, []), ("add", 0, ["x>K2"]), ("branch", 0, 1), ("sat", 1, []), ("sat", 0, [])]
+    H["branch-with-pending-then-solution"] = [("add", 0, [A]), ("max", 0, "x", False, []), ("add", 0, ["x!=K2"]), ("branch", 0, 1), ("solution", 1, "x", 2, []), ("max", 1, "x", False, [])]
+    H["cross-query-branch-link"] = [("add", 0, [A, "y<=K2"]), ("eval", 0, "x+y", 2, []), ("branch", 0, 1), ("add", 0, ["x+y==K0"]), ("eval", 1, "x+y", 9, []), ("eval", 0, "x+y", 9, [])]
     H["minmax-expansion-leak"] = [("add", 0, [A]), ("branch", 0, 1), ("max", 1, "x", False, ["x!=K2"]), ("max", 1, "x", False, []), ("add", 0, [U]), ("max", 0, "x", False, []), ("min", 1, "x", False, [])]
     return H
 
@@ -86,6 +96,16 @@ def merge_histories():
     H["combine-overlapping"] = [("add", 0, [A]), ("eval", 0, "x", 9, []), ("branch", 0, 1), ("add", 1, ["x!=K2"]), ("eval", 1, "x", 9, []), ("add", 0, [U]), ("combine", 0, [1], 2), ("eval", 2, "x", 9, []), ("sat", 2, [])]
     H["combine-models-carry"] = [("add", 0, ["x==K0"]), ("eval", 0, "x", 2, []), ("branch", 0, 1), ("add", 1, ["x==K1"]), ("combine", 0, [1], 2), ("sat", 2, []), ("eval", 2, "x", 2, [])]
     H["combine-three"] = [("add", 0, [A]), ("branch", 0, 1), ("branch", 0, 2), ("add", 1, ["y==K1"]), ("add", 2, ["z==K2"]), ("eval", 1, "y", 2, []), ("eval", 2, "z", 2, []), ("combine", 0, [1, 2], 3), ("eval", 3, "x", 9, []), ("batch", 3, ["y", "z"], 2, [])]
+    # three-way merge / combine where only SOME of the participants share a child or a variable
+    H["merge-three-partial-share"] = [("add", 0, [A]), ("branch", 0, 1), ("branch", 0, 2), ("branch", 0, 3), ("add", 1, ["y==K1"]), ("add", 2, ["y<=K2"]), ("add", 3, ["x>=K1"]),
+                                      ("merge", 1, [2, 3], ["z==K2", "z<=K0", "b"], 4), ("eval", 4, "x", 9, []), ("eval", 4, "x", 9, ["b"]), ("sat", 4, ["x>K2"])]
+    H["merge-three-partial-share-2"] = [("add", 0, [A]), ("branch", 0, 1), ("branch", 0, 2), ("branch", 0, 3), ("add", 1, ["y==K1"]), ("add", 2, ["y!=K1"]), ("add", 3, ["x!=K2"]),
+                                        ("merge", 2, [1, 3], ["b", "!b", "z==K2"], 4), ("max", 4, "x", False, []), ("eval", 4, "x", 9, [])]
+    H["merge-cond-over-shared-var"] = [("add", 0, [A]), ("branch", 0, 1), ("add", 0, ["y==K1"]), ("add", 1, ["y<=K2"]), ("merge", 0, [1], ["x==K0", "x==K1"], 2), ("eval", 2, "x", 9, []), ("sat", 2, ["x>K2"])]
+    H["combine-three-others-overlap"] = [("branch", 0, 1), ("branch", 0, 2), ("add", 0, ["x==K0"]), ("add", 1, ["y<=K2"]), ("add", 2, ["y>=K0"]), ("eval", 0, "x", 2, []), ("eval", 1, "y", 2, []),
+                                         ("eval", 2, "y", 2, []), ("combine", 0, [1, 2], 3), ("sat", 3, []), ("eval", 3, "y", 9, [])]
+    H["combine-three-others-overlap-eq"] = [("branch", 0, 1), ("branch", 0, 2), ("add", 0, [A]), ("add", 1, ["y==K1"]), ("add", 2, ["y!=K1"]), ("eval", 0, "x", 2, []), ("eval", 1, "y", 2, []),
+                                            ("eval", 2, "y", 2, []), ("combine", 0, [1, 2], 3), ("sat", 3, []), ("eval", 3, "y", 2, [])]
     H["split-two-groups"] = [("add", 0, [A, "y<=K2", "x!=K2"]), ("eval", 0, "x", 2, []), ("split", 0, 10), ("sat", 0, [])]
     H["split-connected"] = [("add", 0, [A, "y<=K2", "x==y"]), ("split", 0, 10)]
     H["split-three"] = [("add", 0, [A, "y<=K2", "z==K2", "y==z"]), ("eval", 0, "x", 2, []), ("split", 0, 10)]
@@ -105,6 +125,11 @@ def core_histories():
     H["after-queries"] = [("add", 0, [A]), ("eval", 0, "x", 9, []), ("add", 0, ["x>K2"]), ("sat", 0, []), ("unsat_core", 0)]
     H["eq-eq"] = [("add", 0, ["x==K0"]), ("add", 0, ["x==K1"]), ("unsat_core", 0)]
     H["two-groups"] = [("add", 0, [A, "y<=K2"]), ("add", 0, ["y>=K0"]), ("add", 0, ["x>K2"]), ("unsat_core", 0)]
+    # the pairwise shortcut caches a core; solvers derived by split / merge / combine must not inherit it
+    H["core-then-split"] = [("add", 0, ["y<=K2"]), ("add", 0, ["x==K0"]), ("add", 0, ["x==K1"]), ("unsat_core", 0), ("split", 0, 10), ("unsat_core", 10), ("unsat_core", 11)]
+    H["core-then-merge"] = [("add", 0, ["x==K0"]), ("branch", 0, 1), ("add", 0, ["x==K1"]), ("unsat_core", 0), ("add", 1, ["y<=K2"]), ("merge", 0, [1], ["b", "!b"], 2), ("unsat_core", 2), ("sat", 2, [])]
+    H["core-then-combine"] = [("add", 0, ["x==K0"]), ("add", 0, ["x==K1"]), ("unsat_core", 0), ("branch", 0, 1), ("combine", 0, [1], 2), ("unsat_core", 2)]
+    H["core-branch-after-unsat"] = [("add", 0, [A]), ("add", 0, ["x>K2"]), ("sat", 0, []), ("branch", 0, 1), ("add", 1, ["y<=K2"]), ("unsat_core", 1), ("unsat_core", 0)]
     H["branch-core"] = [("add", 0, [A]), ("branch", 0, 1), ("add", 1, ["x>K2"]), ("unsat_core", 1), ("unsat_core", 0)]
     return H
 
